@@ -162,7 +162,9 @@ func privateAllocs(fn *ssa.Function) map[*ssa.Alloc]bool {
 					return false
 				}
 			case *ssa.MakeClosure:
-				// the closure itself must not leak
+				// Either the closure does not leak (only go/defer/direct call),
+				// or its body only ever reads the captured variable.
+				leaks := false
 				crefs := r.Referrers()
 				if crefs == nil {
 					return false
@@ -171,19 +173,33 @@ func privateAllocs(fn *ssa.Function) map[*ssa.Alloc]bool {
 					switch cr := cr.(type) {
 					case *ssa.Go:
 						if cr.Call.Value != r {
-							return false
+							leaks = true
 						}
 					case *ssa.Defer:
 						if cr.Call.Value != r {
-							return false
+							leaks = true
 						}
 					case *ssa.Call:
 						if cr.Call.Value != r {
-							return false
+							leaks = true
 						}
 					case *ssa.DebugRef:
 					default:
+						leaks = true
+					}
+				}
+				if leaks {
+					cf, ok := r.Fn.(*ssa.Function)
+					if !ok {
 						return false
+					}
+					for bi, bnd := range r.Bindings {
+						if bnd != v {
+							continue
+						}
+						if bi >= len(cf.FreeVars) || !readOnlyUse(cf.FreeVars[bi], 0) {
+							return false
+						}
 					}
 				}
 			default:
@@ -200,6 +216,37 @@ func privateAllocs(fn *ssa.Function) map[*ssa.Alloc]bool {
 		}
 	}
 	return out
+}
+
+// readOnlyUse: the pointer v (a captured variable inside a closure) is only
+// dereferenced for reading (possibly in nested closures).
+func readOnlyUse(v ssa.Value, depth int) bool {
+	refs := v.Referrers()
+	if refs == nil || depth > 3 {
+		return false
+	}
+	for _, r := range *refs {
+		switch r := r.(type) {
+		case *ssa.DebugRef:
+		case *ssa.UnOp:
+			if r.Op != token.MUL {
+				return false
+			}
+		case *ssa.MakeClosure:
+			cf, ok := r.Fn.(*ssa.Function)
+			if !ok {
+				return false
+			}
+			for bi, bnd := range r.Bindings {
+				if bnd == v && (bi >= len(cf.FreeVars) || !readOnlyUse(cf.FreeVars[bi], depth+1)) {
+					return false
+				}
+			}
+		default:
+			return false
+		}
+	}
+	return true
 }
 
 // havocAllKeepPrivate forgets memory except the cells of private allocations.
